@@ -28,7 +28,7 @@ try:
     items = R.run(B, r, flat, cot)
 except Exception as e:
     traceback.print_exc()
-    sys.exit(10)
+    sys.exit(10 if r.get('claim') == 'exception' else 11)
 bad = []
 for name, lhs, rhs in items:
     if len(lhs) != len(rhs) or not all((a == b) if isinstance(a, int) and not isinstance(a, bool) else OF.close(a, b) for a, b in zip(lhs, rhs)):
